@@ -172,11 +172,14 @@ func run(s *kernel.Sim, c *scen.Case) {
 	}
 
 	switch {
-	case p.Shape == "plain":
+	case p.Shape == "plain" || p.Shape == "plain-timeout":
 		pr := startPair(1, p.Role == "sender")
 		stU, stP := pr.CS, pr.SS
 		if p.Role != "sender" {
 			stU, stP = pr.SS, pr.CS
+		}
+		if p.Shape == "plain-timeout" {
+			_ = stU.SetTimeout(10 * time.Minute)
 		}
 		if p.Role == "sender" {
 			s.Go("under-test", func() {
@@ -411,7 +414,7 @@ func run(s *kernel.Sim, c *scen.Case) {
 			s.Violate("slow-return-after-cancellation", sig, fmt.Sprintf("%s: returned %v after the context was done", where, lag))
 			return
 		}
-		if p.Shape == "plain" && !errors.Is(out.err, ctx.Err()) {
+		if (p.Shape == "plain" || p.Shape == "plain-timeout") && !errors.Is(out.err, ctx.Err()) {
 			s.Violate("wrong-error-after-cancellation", sig, fmt.Sprintf("%s: error %q is not the context's error %q", where, out.err, ctx.Err()))
 			return
 		}
@@ -434,6 +437,9 @@ var combos = []struct{ shape, role string }{
 	{"fs", "client"}, {"fs", "server"},
 	{"ssl", "client"}, {"ssl", "server"},
 	{"plain", "sender"}, {"plain", "receiver"},
+	// the same with a socket timeout configured on the stream beforehand (SetTimeout arms real
+	// deadlines on TCP sockets only; the context must stay in charge on every other connection)
+	{"plain-timeout", "sender"}, {"plain-timeout", "receiver"},
 	{"noauth", "client"}, {"noauth", "server"},
 	{"claimtobe", "client"}, {"claimtobe", "server"},
 	{"token", "client"}, {"token", "server"},
